@@ -90,7 +90,7 @@ def check(tier, seed, t0):
              ("cli", common.run_cli_cases("c03", cli_case, seed, "c03cli", total, 94 if tier == "quick" else 200))]
     if tier == "thorough":
         import sanitize
-        parts.append(("miri", sanitize.miri_leg("C03", 5)(tier, seed)))
+        parts.append(("miri", sanitize.miri_leg("C03", 4)(tier, seed)))
     rep = common.merge_reports(parts)
     return common.finalize("C03", tier, seed, "exploration", RULE, rep, t0, ASSUME,
                            floor_eval=1000, floor_distinct=500)
